@@ -27,6 +27,11 @@ contract(SM + '.process_input', props=['C06'],
     ensures=[('accepted', 'k == K_OK', ['C06', 'C08']),
              ('next-state', 'self.state.value == rfc_next(st, inp, k)', ['C06', 'C08', 'C22']),
              ('closed-by', '(-1 if self.stream_closed_by is None else self.stream_closed_by.value) == rfc_closed_by(st, inp, k, cb)', ['C06']),
+             # the received-event grammar (C07) and the treatment of racing frames (C20) rest on the transitions taken
+             # for RECEIVED inputs (6..12 RECV_*, 14 RECV_INFORMATIONAL_HEADERS, 16 RECV_ALTERNATIVE_SERVICE)
+             ('received-input-accepted', 'implies((6 <= inp and inp <= 12) or inp == 14 or inp == 16, k == K_OK)', ['C07', 'C20']),
+             ('next-state-after-received-input', 'implies((6 <= inp and inp <= 12) or inp == 14 or inp == 16, self.state.value == rfc_next(st, inp, k))', ['C07', 'C20']),
+             ('closed-by-after-received-input', 'implies((6 <= inp and inp <= 12) or inp == 14 or inp == 16, (-1 if self.stream_closed_by is None else self.stream_closed_by.value) == rfc_closed_by(st, inp, k, cb))', ['C07', 'C20']),
              ('event-count', '(0 if result is None else len(result)) == (0 if rfc_event(st, inp, k, cl, hs, ts, hr, tr) == "" else 1)', ['C06', 'C07']),
              ('event-kind', 'implies(rfc_event(st, inp, k, cl, hs, ts, hr, tr) != "", class_name(result[0]) == rfc_event(st, inp, k, cl, hs, ts, hr, tr))', ['C06', 'C07', 'C24']),
              ('client', 'self.client == rfc_client_after(st, inp, k, cl)', ['C06', 'C07', 'C08']),
@@ -41,7 +46,7 @@ contract(SM + '.process_input', props=['C06'],
                           ('reset-event', 'implies(k == K_RST, class_name(exc._events[0]) == "StreamReset" and exc._events[0].remote_reset is False and exc._events[0].error_code == STREAM_CLOSED)', ['C06', 'C07']),
                           ('code', 'exc.error_code == STREAM_CLOSED', ['C06', 'C18']),
                           ('sid', 'exc.stream_id == self.stream_id')]),
-            dict(exc='ProtocolError', when='k == K_PROTO', props=['C06', 'C08'],
+            dict(exc='ProtocolError', when='k == K_PROTO', props=['C06', 'C08', 'C20', 'C07'],
                  ensures=[('code', 'exc.error_code == PROTOCOL_ERROR', ['C06', 'C18'])])],
     on_raise=[('closed', 'self.state == StreamState.CLOSED', ['C06']),
               ('closed-by', '(-1 if self.stream_closed_by is None else self.stream_closed_by.value) == rfc_closed_by(st, inp, k, cb)', ['C06']),
